@@ -336,5 +336,98 @@ example : Golib.Gen.Trans.C16.Bitmap_Add ⟨[]⟩ 70#64 = .ok (true, ⟨[0#64, 6
     Golib.Gen.Trans.C16.Bitmap_Len ⟨[0#64, 64#64]⟩ = .ok 1 := by
   refine ⟨?_, ?_, ?_⟩ <;> decide +kernel
 
+/-! ### Regenerated tie (wave 8), part 2: `Grow`, `Cap`, the bulk operations, and `dsz.Bits`
+
+Same reading as above.  `ofModel`/`ofDModel` are the identity on the fields (model structure ↦ translated
+structure).  The bulk operations take `other` BY VALUE: the translation (like `Model/C16Bits.lean`) has no
+aliasing, so these ties are about two receivers with separate word arrays; `x.Diff(x)` and the other shared-array
+histories are the subject of the one-memory machine (`C16Heap`), not of these theorems.
+`setz.Bits` (cached length over an EMBEDDED `Bitmap`) is outside the translator's subset (embedded field) and
+keeps the token-hash drift alarm. -/
+
+/-- TIE: `(*Bitmap).Grow` as translated = the model's `Bitmap.grow` (never panics: `grow ≥ 1` in the branch). -/
+theorem c16_trans_Bitmap_Grow (b : GBitmap) (n : BitVec 64) :
+    Golib.Gen.Trans.C16.Bitmap_Grow b n = .ok (ofModel ((toModel b).grow n.toNat)) :=
+  trans_grow b n
+
+/-- TIE: `(*Bitmap).Cap` as translated (`len(b.set) << 6` on the unbounded `Int`) = the model's `Bitmap.cap`. -/
+theorem c16_trans_Bitmap_Cap (b : GBitmap) :
+    Golib.Gen.Trans.C16.Bitmap_Cap b = .ok ((toModel b).cap) :=
+  trans_cap b
+
+/-- TIE: `(*Bitmap).Diff` as translated (a `for` loop with `break`) = the model's `diffWords`, for every pair
+of word lists; the fuel `len(b.set) + 1` always suffices and no index panics. -/
+theorem c16_trans_Bitmap_Diff (b other : GBitmap) :
+    Golib.Gen.Trans.C16.Bitmap_Diff b other = .ok (ofModel ((toModel b).diff (toModel other))) :=
+  trans_diff b other
+
+/-- TIE: `(*Bitmap).Intersect` as translated (a `for` loop with `continue`) = the model's `intersectWords`. -/
+theorem c16_trans_Bitmap_Intersect (b other : GBitmap) :
+    Golib.Gen.Trans.C16.Bitmap_Intersect b other = .ok (ofModel ((toModel b).intersect (toModel other))) :=
+  trans_intersect b other
+
+/-- TIE: `(*Bitmap).Merge` as translated (a loop over `other` that appends beyond the receiver's length)
+= the model's `mergeWords`; fuel `len(other.set) + 1`. -/
+theorem c16_trans_Bitmap_Merge (b other : GBitmap) :
+    Golib.Gen.Trans.C16.Bitmap_Merge b other = .ok (ofModel ((toModel b).merge (toModel other))) :=
+  trans_merge b other
+
+/-- TIE: `dsz.(*Bits).Grow` as translated = the model's `DBits.grow` (the `length` field untouched). -/
+theorem c16_trans_dsz_Bits_Grow (b : GDBits) (n : BitVec 64) :
+    Golib.Gen.Trans.C16.Bits_Grow b n = .ok (ofDModel ((toDModel b).grow n.toNat)) :=
+  trans_dgrow b n
+
+/-- TIE: `dsz.(*Bits).Add` as translated = the model's `DBits.add` (word list and cached length `++`). -/
+theorem c16_trans_dsz_Bits_Add (b : GDBits) (num : BitVec 64) :
+    Golib.Gen.Trans.C16.Bits_Add b num = dOutOf ((toDModel b).add num.toNat) :=
+  trans_dadd b num
+
+/-- TIE: `dsz.(*Bits).Remove` as translated = the model's `DBits.remove` (cached length `--`). -/
+theorem c16_trans_dsz_Bits_Remove (b : GDBits) (num : BitVec 64) :
+    Golib.Gen.Trans.C16.Bits_Remove b num = dOutOf ((toDModel b).remove num.toNat) :=
+  trans_dremove b num
+
+/-- TIE: `dsz.(*Bits).Contains` as translated = the model's `DBits.contains`. -/
+theorem c16_trans_dsz_Bits_Contains (b : GDBits) (num : BitVec 64) :
+    Golib.Gen.Trans.C16.Bits_Contains b num = ofOpt ((toDModel b).contains num.toNat) :=
+  trans_dcontains b num
+
+/-- TIE: `dsz.(*Bits).Len` as translated = the model's `DBits.len` (the cached field, not a recount). -/
+theorem c16_trans_dsz_Bits_Len (b : GDBits) :
+    Golib.Gen.Trans.C16.Bits_Len b = .ok ((toDModel b).len) :=
+  trans_dlen b
+
+/-- TIE: `dsz.(*Bits).Cap` as translated = the model's `DBits.cap`. -/
+theorem c16_trans_dsz_Bits_Cap (b : GDBits) :
+    Golib.Gen.Trans.C16.Bits_Cap b = .ok ((toDModel b).cap) :=
+  trans_dcap b
+
+/-- Non-vacuity: `Grow(130)` on one word gives three; `Cap` of three words is 192. -/
+example : Golib.Gen.Trans.C16.Bitmap_Grow ⟨[5#64]⟩ 130#64 = .ok ⟨[5#64, 0#64, 0#64]⟩ ∧
+    Golib.Gen.Trans.C16.Bitmap_Grow ⟨[5#64, 0#64, 0#64]⟩ 130#64 = .ok ⟨[5#64, 0#64, 0#64]⟩ ∧
+    Golib.Gen.Trans.C16.Bitmap_Cap ⟨[5#64, 0#64, 0#64]⟩ = .ok 192 := by
+  refine ⟨?_, ?_, ?_⟩ <;> decide +kernel
+/-- Non-vacuity: the three bulk operations on receivers of different lengths (shorter, longer than `other`). -/
+example : Golib.Gen.Trans.C16.Bitmap_Diff ⟨[7#64, 3#64, 9#64]⟩ ⟨[5#64, 1#64]⟩ = .ok ⟨[2#64, 2#64, 9#64]⟩ ∧
+    Golib.Gen.Trans.C16.Bitmap_Diff ⟨[7#64]⟩ ⟨[5#64, 1#64]⟩ = .ok ⟨[2#64]⟩ := by
+  refine ⟨?_, ?_⟩ <;> decide +kernel
+example : Golib.Gen.Trans.C16.Bitmap_Intersect ⟨[7#64, 3#64, 9#64]⟩ ⟨[5#64, 1#64]⟩ = .ok ⟨[5#64, 1#64, 0#64]⟩ ∧
+    Golib.Gen.Trans.C16.Bitmap_Intersect ⟨[7#64]⟩ ⟨[5#64, 1#64]⟩ = .ok ⟨[5#64]⟩ := by
+  refine ⟨?_, ?_⟩ <;> decide +kernel
+example : Golib.Gen.Trans.C16.Bitmap_Merge ⟨[8#64]⟩ ⟨[5#64, 1#64, 2#64]⟩ = .ok ⟨[13#64, 1#64, 2#64]⟩ ∧
+    Golib.Gen.Trans.C16.Bitmap_Merge ⟨[8#64, 3#64, 9#64]⟩ ⟨[5#64]⟩ = .ok ⟨[13#64, 3#64, 9#64]⟩ := by
+  refine ⟨?_, ?_⟩ <;> decide +kernel
+/-- Non-vacuity (`dsz.Bits`): adding 70 to the empty set grows and counts; re-adding does not count;
+removing counts down; `Len` is the cached field (here deliberately wrong: 41). -/
+example : Golib.Gen.Trans.C16.Bits_Add ⟨0, []⟩ 70#64 = .ok ⟨1, [0#64, 64#64]⟩ ∧
+    Golib.Gen.Trans.C16.Bits_Add ⟨1, [0#64, 64#64]⟩ 70#64 = .ok ⟨1, [0#64, 64#64]⟩ ∧
+    Golib.Gen.Trans.C16.Bits_Remove ⟨1, [0#64, 64#64]⟩ 70#64 = .ok ⟨0, [0#64, 0#64]⟩ ∧
+    Golib.Gen.Trans.C16.Bits_Contains ⟨1, [0#64, 64#64]⟩ 70#64 = .ok true := by
+  refine ⟨?_, ?_, ?_, ?_⟩ <;> decide +kernel
+example : Golib.Gen.Trans.C16.Bits_Len ⟨41, [0#64, 64#64]⟩ = .ok 41 ∧
+    Golib.Gen.Trans.C16.Bits_Cap ⟨41, [0#64, 64#64]⟩ = .ok 128 ∧
+    Golib.Gen.Trans.C16.Bits_Grow ⟨41, []⟩ 64#64 = .ok ⟨41, [0#64, 0#64]⟩ := by
+  refine ⟨?_, ?_, ?_⟩ <;> decide +kernel
+
 
 end Golib.C16
